@@ -208,6 +208,7 @@ func C18(c *Ctx) int {
 					rec := sr.Rec
 					if rec.Ev == "init" {
 						rec.N = len(progs)
+						rec.Ok = false
 					}
 					recs = append(recs, rec)
 				}
